@@ -52,8 +52,8 @@ func (c *qcCase) line() string {
 		switch a.kind {
 		case 'r':
 			as = append(as, fmt.Sprintf("r%d:%d", a.nid, a.val))
-		case 'e':
-			as = append(as, fmt.Sprintf("e%d:%d", a.nid, a.val))
+		case 'e', 'x':
+			as = append(as, fmt.Sprintf("%c%d:%d", a.kind, a.nid, a.val))
 		default:
 			as = append(as, "c")
 		}
@@ -253,6 +253,14 @@ func genQC(r *rand.Rand, id, maxN int, thorough bool) *qcCase {
 	}
 	// context end: nowhere, at the start, or right after a reply arrival (so that its
 	// position relative to consumed arrivals is observable, see DESIGN 5/C02)
+	if r.Intn(10) == 0 && !info.EmptyIn {
+		for i := range c.arr {
+			if c.arr[i].kind == 'e' {
+				c.arr[i] = arrival{kind: 'x', nid: c.arr[i].nid}
+				return c // no cancel, no burst in crash cases
+			}
+		}
+	}
 	if r.Intn(5) == 0 {
 		// burst: no context end; threshold quorum function (its verdict does not depend on the order)
 		c.burst = true
@@ -392,6 +400,8 @@ var qcCorpus = []string{
 	"qc id=0 m=QuorumCallAsync x=4 qf=thr:3 arr=r1:1,r2:2,r4:0,e3:5 cfg=1.2.3.4 skip=- empty=- burst=1",
 	"qc id=0 m=QuorumCallPerNodeArg x=3 qf=thr:3 arr=r1:1,r2:2,r3:3 cfg=1.2.3 skip=- empty=2",
 	"qc id=0 m=QuorumCallAsyncCombo x=2 qf=thr:2 arr=r1:1,r3:3 cfg=1.2.3 skip=2 empty=1.3",
+	"qc id=0 m=QuorumCall x=3 qf=thr:2 arr=x3:0,r1:1,r2:2 cfg=1.2.3 skip=- empty=- burst=0",
+	"qc id=0 m=QuorumCallAsync x=3 qf=thr:3 arr=r1:1,x2:0,r3:2 cfg=1.2.3 skip=- empty=- burst=0",
 }
 
 func runQC(sh *shard, c *qcCase, expLine string, sum *sumT) {
@@ -434,6 +444,8 @@ func runQC(sh *shard, c *qcCase, expLine string, sum *sumT) {
 			if info.EmptyOut {
 				s.Value = 0
 			}
+		} else if a.kind == 'x' {
+			s.Action = puppet.Silent
 		} else {
 			s.Action = puppet.Fail
 			s.Code = codes.Code(a.val)
@@ -541,6 +553,22 @@ func runQC(sh *shard, c *qcCase, expLine string, sum *sumT) {
 			}
 		}
 	}
+	var crashed []uint32
+	defer func() {
+		// bring crashed servers back and make sure the nodes are used again (C10)
+		for _, nid := range crashed {
+			if err := sh.cl.Restart(int(nid - 1)); err != nil {
+				fatal(err)
+			}
+		}
+		for _, nid := range crashed {
+			node := sh.node(nid)
+			ok := waitFor(6*time.Second, func() bool { return probe(node, 400*time.Millisecond) })
+			if !ok {
+				sh.caseFail(Mismatch{Property: "C10", Case: caseLine, Expected: fmt.Sprintf("node %d is used again after its server restarted", nid), Observed: "probe RPCs fail for 6s", Detail: strings.Join(signatures(goroutineDump()), "; ")}, true)
+			}
+		}
+	}()
 	// feed arrivals in order
 	for _, a := range c.arr {
 		if returned() || c.burst {
@@ -558,7 +586,13 @@ func runQC(sh *shard, c *qcCase, expLine string, sum *sumT) {
 		case <-time.After(5 * time.Second):
 			fail("C06", "handler entered at node "+strconv.Itoa(int(a.nid)), "not entered within 5s", "")
 		}
-		close(s.Gate)
+		if a.kind == 'x' {
+			// the server behind this node dies while the request is pending
+			sh.cl.Stop(int(a.nid - 1))
+			crashed = append(crashed, a.nid)
+		} else {
+			close(s.Gate)
+		}
 		node := sh.node(a.nid)
 		if !waitFor(5*time.Second, func() bool { return routers(node) == 0 || returned() }) {
 			fail("C05", "reply routed", "router still present after 5s", fmt.Sprintf("node %d", a.nid))
@@ -643,6 +677,9 @@ func runQC(sh *shard, c *qcCase, expLine string, sum *sumT) {
 			d = strings.ReplaceAll(res.err.Error(), "\n", "/")
 		}
 		fail("C02", expOut, obs, d)
+		if strings.Contains(caseLine, ",e") || strings.Contains(caseLine, "=e") || strings.Contains(caseLine, "x") {
+			fail("C07", expOut, obs, d)
+		}
 	}
 	for _, n := range notes {
 		fail("C02", "consistent error value", n, "")
@@ -698,6 +735,11 @@ func runQC(sh *shard, c *qcCase, expLine string, sum *sumT) {
 	if res.err != nil {
 		texts := nodeErrTexts(res.err)
 		for _, a := range c.arr {
+			if a.kind == 'x' {
+				if t, ok := texts[strconv.Itoa(int(a.nid))]; ok && !strings.Contains(t, "Unavailable") {
+					fail("C07", fmt.Sprintf("node %d: an Unavailable-type error (its connection broke)", a.nid), t, "")
+				}
+			}
 			if a.kind != 'e' {
 				continue
 			}
@@ -813,6 +855,9 @@ func runQC(sh *shard, c *qcCase, expLine string, sum *sumT) {
 		switch a.kind {
 		case 'e':
 			nErr++
+		case 'x':
+			nErr++
+			sum.count("connection-break-while-pending")
 		case 'c':
 			hasCancel = true
 		}
